@@ -1324,6 +1324,85 @@ fn c13_gen(seed: u64, run: u64, thorough: bool) -> Plan {
 fn c13_gen_b(seed: u64, run: u64, thorough: bool) -> Plan {
     b_transport("C13", "b_rate", seed, run, thorough, false, false, false)
 }
+/// World B, the ceiling across the life cycle of connections: a server with a standing backlog
+/// for a client whose max_receive_rate is far below the server's max_send_rate; the connection is
+/// dropped by the server application (or the client crashes) and the same address comes back at
+/// once; stale connection requests that advertise other limits arrive from the client's address
+/// shortly before it starts. Whatever the server sends to the address has to respect the ceiling
+/// negotiated with the client that is there.
+fn c13_gen_life(seed: u64, run: u64, thorough: bool) -> Plan {
+    use crate::adversary::enc_syn;
+    let mut r = Rng::keyed(&[seed, run, 0xc131_1fe]);
+    let mut plan = Plan::new("C13", "b_rate_lifecycle", seed, run);
+    plan.fate_seed = Some(crate::rng::key(&[seed, run, 0xfa7e]));
+    let mut scfg = EndpointCfg::default();
+    scfg.max_send_rate = *r.pick(&[200_000u64, 2_000_000, 50_000_000]);
+    scfg.active_timeout_ms = *r.pick(&[5_000u64, 20_000]);
+    let n_clients = r.range(1, 2) as usize;
+    let rates: Vec<u64> = (0..n_clients).map(|_| r.log_range(3_000, 150_000)).collect();
+    let rates2 = rates.clone();
+    let topo = topology(&mut plan, &mut r, n_clients, 0, scfg.clone(), 64, 32, move |_, i| {
+        let mut c = EndpointCfg::default();
+        c.max_receive_rate = rates2[i];
+        c
+    });
+    plan.push(0, 0, Op::Create { ep: 0 });
+    let latency = r.log_range(200, 150_000);
+    let mut rule = clean_rule(latency);
+    if r.chance(0.4) {
+        rule.drop_p = r.f64() * 0.05;
+    }
+    plan.push(0, 2, Op::Link { from: None, to: None, rule });
+    let horizon = r.range(25, if thorough { 80 } else { 45 }) * 1_000_000;
+    let mut tag = 0u32;
+    for (i, &c) in topo.clients.iter().enumerate() {
+        let mut t_create = r.range(100_000, 2_000_000);
+        // a stale connection request from the client's own address (another nonce, other limits)
+        // shortly before the client starts: its handshake is still pending when the client comes
+        if r.chance(0.5) {
+            t_create += r.range(0, 20_000_000);
+            let t_stale = t_create.saturating_sub(r.log_range(50_000, 21_000_000));
+            let rate = (rates[i] * *r.pick(&[4u64, 100, 100_000])).min(u32::MAX as u64) as u32;
+            plan.push(t_stale, 0x8000_0002, Op::Inject { to: 0, from: c, bytes: enc_syn(3, r.u32() | 1, rate, 1_000_000, 1_000_000, 1472), twin: false });
+        }
+        plan.push(t_create, 1, Op::Create { ep: c });
+        let period = r.range(3_000, 60_000);
+        let mut lives = vec![(t_create, horizon)];
+        // the connection is cut and the address comes back at once
+        if r.chance(0.6) {
+            let t_cut = t_create + r.range(3_000_000, 15_000_000);
+            if t_cut + 5_000_000 < horizon {
+                match r.below(3) {
+                    0 => plan.push(t_cut, r.u32() | 1, Op::ServerDrop { ep: 0, to: c }),
+                    1 => plan.push(t_cut, r.u32() | 1, Op::DisconnectNow { ep: 0, to: Some(c) }),
+                    _ => (),
+                }
+                let t_gone = t_cut + r.below(300_000);
+                let t_back = t_gone + r.log_range(20_000, 3_000_000);
+                plan.push(t_gone, 1, Op::Destroy { ep: c });
+                plan.push(t_back, 1, Op::Create { ep: c });
+                lives = vec![(t_create, t_gone), (t_back, horizon)];
+            }
+        }
+        for (a, b) in lives {
+            plan.push(a + r.below(period), r.u32() | 1, Op::StepEvery { ep: c, period_us: period, until_us: b });
+        }
+        // a stream from the server that keeps a backlog standing at the client's ceiling
+        let per_s = rates[i] * 2;
+        let mut t = t_create + 200_000;
+        while t < horizon - 3_000_000 && tag < 6000 {
+            let len = r.range(200, 3000) as u32;
+            plan.push(t, 0x4000_0000 + tag, Op::Send { ep: 0, to: Some(c), ch: (tag % 4) as u8, mode: *r.pick(&[MODE_RELIABLE, MODE_UNRELIABLE, MODE_PERSISTENT]), len, tag });
+            tag += 1;
+            t += (len as u64 * 1_000_000 / per_s).max(1000);
+        }
+    }
+    plan.push(r.below(20_000), r.u32() | 1, Op::StepEvery { ep: 0, period_us: r.range(2_000, 50_000), until_us: horizon });
+    plan.params.insert("short_ch".into(), 63.0);
+    plan.end_us = horizon;
+    plan.sort();
+    plan
+}
 fn c13_oracles(_plan: &Plan) -> Vec<Box<dyn Oracle>> {
     with_states(vec![Box::new(RateOracle::new("C13"))])
 }
@@ -1418,6 +1497,8 @@ pub fn c13() -> CheckDef {
         property: "C13",
         families: vec![Family { name: "b_rate", world: "B", weight: 2, gen: c13_gen_b, oracles: c13_oracles, adversary: None, keep_workload: false, custom: None,
             what: "real Client/Server: ceiling = min(local max_send_rate, peer max_receive_rate) from the two endpoint configurations" },
+        Family { name: "b_rate_lifecycle", world: "B", weight: 1, gen: c13_gen_life, oracles: c13_oracles, adversary: None, keep_workload: false, custom: None,
+            what: "a server (max_send_rate 0.2-50 MB/s) with a standing backlog for 1-2 clients whose max_receive_rate is 3-150 kB/s; the connection is cut (Server::drop, disconnect_now, client crash) and the same address is back within 0.02-3 s; stale connection requests advertising 4-100000 times the client's rate arrive from its address up to 21 s before it starts: everything the server sends to the address is held against the ceiling negotiated with the client that is there" },
         Family { name: "a_ack_flood", world: "A", weight: 1, gen: c13_gen_ack_flood, oracles: c13_oracles, adversary: Some(c13_adv), keep_workload: false, custom: None,
             what: "a sender with traffic of its own and a ceiling of 1472 B/s..1 MB/s whose connected peer floods it with empty data frames 32 ids apart (every frame opens a new acknowledgement group: hundreds of groups owed per flush) and acknowledges some of its frames; link delays up to 0.4 s so that the burst allowance ceiling x RTT has some size" },
         Family { name: "a_sync_flood", world: "A", weight: 1, gen: c13_gen_sync_flood, oracles: c13_oracles, adversary: Some(c13_adv_sync), keep_workload: false, custom: None,
